@@ -296,3 +296,25 @@ def xr_le(a, b):
 def xr_eq(a, b):
     a, b = to_xr(a), to_xr(b)
     return Or(And(xr_isinf(a), xr_isinf(b)), And(Not(xr_isinf(a)), Not(xr_isinf(b)), xr_val(a) == xr_val(b)))
+
+
+class Abbrev:
+    """opaque abbreviation: an uninterpreted predicate P together with its definition body(*args).  Formulas mention P(args);
+    the defining equation P(args) == body(args) is only added for the argument tuples where a proof needs it (opaque / reveal).
+    Sound: every assumed instance is an instance of the one definition, so interpreting P as body satisfies all of them."""
+
+    def __init__(self, name, sorts, body):
+        self.name, self.sorts, self.body = name, sorts, body
+
+    def fn(self):
+        return z3.Function('%s_%d' % (self.name, Mode.gen), *([x() if callable(x) else x for x in self.sorts] + [B]))
+
+    def __call__(self, *args):
+        if Mode.finite:
+            return self.body(*args)       # the finite-scope refuter sees through the abbreviation
+        return self.fn()(*args)
+
+    def instance(self, *args):
+        if Mode.finite:
+            return BoolVal(True)
+        return self.fn()(*args) == self.body(*args)
